@@ -181,9 +181,19 @@ def pairs16 : List Nat → List Int
   | a :: b :: r => toSigned 16 (be16 a b) :: pairs16 r
   | _ => []
 
+/-- the loop over the sizes: positive ones are kept and multiplied into `nvals`; more than 65535
+values per frame is an error (so the product never leaves the `int` range). -/
+def shapeLoop : List Int → List Int → Int → Option (List Int)
+  | [], acc, _ => some acc
+  | d :: r, acc, nvals =>
+    if d > 0 then
+      if nvals * d > 65535 then none else shapeLoop r (acc ++ [d]) (nvals * d)
+    else shapeLoop r acc nvals
+
 def parseShape (body : List Nat) : Option (List Int) :=
-  let s := (pairs16 body).filter (· > 0)
-  if s = [] then none else some s
+  match shapeLoop (pairs16 body) [] 1 with
+  | none => none
+  | some s => if s = [] then none else some s
 
 /-- one TLV: type `t`, byte size `size` (a positive multiple of 8, already checked), bytes 2..7 and the
 bytes from 8 up to `size`. -/
@@ -267,6 +277,13 @@ def readPayload (p : Packet) (rest : List Nat) (base : Nat) : Except Err Packet 
       if rest.length < p.pl then (.error (shortRead rest), base + rest.length)
       else (.ok { p with data := .raw (rest.take p.pl) }, base + p.pl)
 
+/-- the check after the TLV loop: a shape without a format of nonzero word length -/
+def shapeUnusable (p : Packet) : Bool :=
+  match p.shape, p.format with
+  | some _, none => true
+  | some _, some f => f.wordlen == 0
+  | none, _ => false
+
 /-- `ReadPacket` on the byte string `inp`: result and number of bytes consumed from the reader. -/
 def decodeC (inp : List Nat) : Except Err Packet × Nat :=
   match inp with
@@ -283,7 +300,10 @@ def decodeC (inp : List Nat) : Except Err Packet × Nat :=
         { version := v, hl := hl, pl := be16 p0 p1, src := be32 s0 s1 s2 s3, seq := be32 q0 q1 q2 q3,
           plen := (hl : Int) + be16 p0 p1, format := none, shape := none, ts := none, label := [],
           offset := 0, explicitOffset := false, data := .none }
-      readPayload (tlvs.foldl applyTLV p0) (rest.drop nt) hl
+      let p := tlvs.foldl applyTLV p0
+      -- a shape is usable only together with a format of nonzero word length
+      if shapeUnusable p then (.error .bad, hl) else
+      readPayload p (rest.drop nt) hl
   | _ => (.error .short, inp.length)
 
 def decode (inp : List Nat) : Except Err Packet := (decodeC inp).1
@@ -311,7 +331,7 @@ def frames (p : Packet) : Res Int :=
 
 def channelInfo (p : Packet) : Res (Int × Int) :=
   match p.shape with
-  | none => .pan .nilDeref
+  | none => .ok (1, p.offset)
   | some sz => .ok (nchanOf sz, p.offset)
 
 def length (p : Packet) : Int := p.plen
@@ -332,7 +352,7 @@ def readValue (p : Packet) (i : Int) : Res Int :=
     | .i16 xs => pick xs
     | .i32 xs => pick xs
     | .i64 xs => pick xs
-    | _ => .pan .explicit
+    | _ => .ok 0
 
 /-- `x[i] = d[i % nchan]` for `i` in range; `i % nchan` for `i ≥ 0` is `i mod |nchan|` -/
 def pickAll (xs : List Int) (k : Nat) : List Nat → Res (List Int)
@@ -377,6 +397,7 @@ def maxPacketLength : Nat := 8192
 
 inductive NDErr where
   | tooLong
+  | tooManyDims
   | pan (p : Pan)
 deriving DecidableEq, Repr
 
@@ -389,18 +410,14 @@ def fmtOf (d : Data) : Fmt :=
 /-- `NewData(data, dims)` for typed data (the harness never passes another type). -/
 def newData (p : Packet) (d : Data) (dims : List Int) : Except NDErr Packet :=
   let ndim := dims.length
+  if 48 + 8 * (1 + ndim / 4) > 255 then .error .tooManyDims else
   let hl0 := if p.ts.isSome then 40 else 24
   let f := fmtOf d
-  let pl := (f.wordlen * d.len) % 65536                        -- uint16(...)
-  -- Sizes = make([]int16, 1); Sizes[i] = dims[i] for i < ndim
-  if ndim ≥ 2 then .error (.pan .indexRange) else
-  let sizes : List Int := match dims with
-    | [] => [0]
-    | x :: _ => [x]
-  let hl := (hl0 + 8 + (8 * ((1 + ndim / 4) % 256)) % 256) % 256
-  let plen : Nat := hl + pl
+  let nbytes := f.wordlen * d.len                              -- an `int`
+  let hl := (hl0 + 8 + (8 * ((1 + ndim / 4) % 256)) % 256) % 256   -- uint8 arithmetic
+  let plen : Nat := hl + nbytes
   if plen > maxPacketLength then .error .tooLong else
-  .ok { p with hl := hl, pl := pl, plen := plen, format := some f, shape := some sizes, data := d,
+  .ok { p with hl := hl, pl := nbytes % 65536, plen := plen, format := some f, shape := some dims, data := d,
                seq := (p.seq + 1) % 4294967296 }
 
 /-! ### Bytes -/
@@ -491,7 +508,15 @@ def observe (p : Packet) (consumed : Nat) (reads : List Int) (pseq : Nat) (pn : 
 for a successfully decoded packet, given the declared lengths `(hl, pl)` of the input and the accessor
 arguments.  `accOK` is their conjunction. -/
 
-def prod (xs : List Int) : Int := xs.foldl (· * ·) 1
+def prod : List Int → Int
+  | [] => 1
+  | x :: r => x * prod r
+
+/-- a shape the wire format can carry: it has a positive size, and the positive sizes describe at most
+65535 values per frame (non-positive sizes are padding on the wire and are dropped by the decoder) -/
+def wfShape (s : List Int) : Bool :=
+  let pos := s.filter (· > 0)
+  pos != [] && prod pos ≤ 65535
 
 def pretendOK (o : Obs) (seq : Nat) (nchan : Int) (q : Res PObs) : Bool :=
   match q with
@@ -541,7 +566,7 @@ def rtClauses (p : Packet) (nbytes : Nat) (o : Obs) : List (String × Bool) :=
   [ ("version", o.v == p.version),
     ("source", o.src == p.src),
     ("seqnum", o.seq == p.seq),
-    ("offset", match o.ci with | .ok (_, off) => off == p.offset | .pan _ => p.shape.isNone),
+    ("offset", match o.ci with | .ok (_, off) => off == p.offset | .pan _ => false),
     ("shape", o.sh == p.shape.map (·.filter (· > 0))),
     ("payload", samples o.data == samples p.data && (p.data.len == 0 || o.data.kind == p.data.kind)),
     ("timestamp", o.ts == tsCounter p),
@@ -833,6 +858,8 @@ def runLine (ts : List String) : Verdict :=
       | _, .ctorPanic j c' => .viol s!"C15:ctor-panic a public constructor panicked (op {j} {c'}) and the model does not"
       | .error (i, .tooLong), .ctorErr j =>
         if i == j then .ok ["newdata-err"] else .diff s!"NewData error at op {j}, model at op {i}"
+      | .error (i, .tooManyDims), .ctorErr j =>
+        if i == j then .ok ["newdata-err", "newdata-dims"] else .diff s!"NewData error at op {j}, model at op {i}"
       | .error (i, _), _ => .diff s!"model: NewData fails at op {i}; implementation does not"
       | .ok _, .ctorErr j => .diff s!"implementation: NewData error at op {j}; model accepts"
       | .ok p, .bytes bs d =>
@@ -841,7 +868,7 @@ def runLine (ts : List String) : Verdict :=
         | .ok mbs =>
           -- oracle on the implementation's output
           let jd := judgeDec bs ln.reads ln.pseq ln.pn d
-          let wf := match p.shape with | some s => s.any (· > 0) | none => true
+          let wf := match p.shape with | some s => wfShape s | none => true
           let rt : Option String := match d with
             | .ok o => (firstFail (rtClauses p bs.length o)).map fun c =>
                 s!"C15:roundtrip-{c} decode(encode(p)) does not reproduce '{c}'"
